@@ -43,7 +43,10 @@ fn fwd(op: &Op, _ctx: &dyn Context, operands: &mut dyn CoordinateSet) -> usize {
             let (sin_lon, cos_lon) = (lon - lon_0).sin_cos();
 
             let q = ancillary::qs(lat.sin(), e);
-            let rho = a * (qp + sign * q).sqrt();
+            // At the pole of the aspect, qp + sign * q is zero up to rounding,
+            // i.e. it may come out as a tiny negative number (a NaN stays a NaN)
+            let t = qp + sign * q;
+            let rho = a * if t < 0.0 { 0.0 } else { t.sqrt() };
 
             let easting = x_0 + rho * sin_lon;
             let northing = y_0 + sign * rho * cos_lon;
@@ -117,7 +120,13 @@ fn inv(op: &Op, _ctx: &dyn Context, operands: &mut dyn CoordinateSet) -> usize {
 
             // The authalic latitude is a bit convoluted
             let denom = a * a * qp;
-            let xi = (-sign) * (1.0 - rho * rho / denom).asin();
+            let sin_xi = 1.0 - rho * rho / denom;
+            if sin_xi.abs() > 1.0 {
+                debug!("LAEA: ({x}, {y}) outside domain");
+                operands.set_xy(i, f64::NAN, f64::NAN);
+                continue;
+            }
+            let xi = (-sign) * sin_xi.asin();
 
             let lon = lon_0 + (x - x_0).atan2(sign * (y - y_0));
             let lat = ellps.latitude_authalic_to_geographic(xi, &authalic);
